@@ -1,12 +1,88 @@
 /- Driver operations of contributor `Many` (translated-code ties): run GENERATED functions so the harness can compare them with the real code.
-   Wired into the cluster drivers by a fall-through; return `none` for names that are not yours. -/
+   Wired into the cluster drivers by a fall-through; return `none` for names that are not yours.
+   The generated functions of Gen/Many.lean (namespace GenM) are run with the TEXT side `GenM.Ext.text`: every exported row is written by the
+   translated `data2pdb` loop body, every new table is parsed from those lines by the record loop; errors are kept. -/
 import PdbVerif.Driver.Json
+import PdbVerif.Driver.BJson
+import PdbVerif.Gen.Many
+import PdbVerif.Model.TableWorldText
 
 namespace Driver.ExtMany
-open Lean Driver
+open Lean Driver Driver.B Tbl
+
+abbrev X := GenM.Ext.text
+
+def errJ (e : Model.Err) : Json := .str ("ERR:" ++ e.tag)
+
+/-- a database with its `_nModel` -/
+def dbOut : Except Model.Err Db → Json
+  | .ok db => Json.mkObj [("tabs", .arr (db.tabs.map (fun t => Json.mkObj [("name", strJ t.name), ("rows", .arr (t.rows.map rowJ).toArray)])).toArray),
+                           ("colnames", .arr (db.colnames.map strJ).toArray), ("nModel", intJ db.nModel)]
+  | .error e => errJ e
+
+/-- {"obj": db} | {"lines": [..]} | "a str" | anything else -/
+def elemOfJson (j : Json) : Except String (GenM.Elem X.Data) :=
+  match j with
+  | .str s => pure (.str s.toList)
+  | .obj _ =>
+    match j.getObjVal? "obj" with
+    | .ok d => do pure (.obj (← dbOfJson d))
+    | _ =>
+      match j.getObjVal? "lines" with
+      | .ok (.arr a) => do pure (.data ((← a.toList.mapM asStr).map String.toList))
+      | _ => pure .other
+  | _ => pure .other
+
+/-- null | [elements] | anything else -/
+def argOfJson (j : Json) (k : String) : Except String (GenM.Arg X.Data) :=
+  match j.getObjVal? k with
+  | .ok .null => pure .none
+  | .ok (.arr a) => do pure (.list (← a.toList.mapM elemOfJson))
+  | .ok _ => pure .other
+  | _ => pure .none
+
+def resultJ : Model.Result → Json
+  | .data items => itemsJ items
+  | .models per => Json.mkObj [("models", .arr (per.map itemsJ).toArray)]
+
+def elemOut : Except Model.Err (GenM.Elem X.Data) → Json
+  | .ok (.data ls) => Json.mkObj [("lines", .arr (ls.map strJ).toArray)]
+  | .ok (.str s) => strJ s
+  | .ok (.obj db) => Json.mkObj [("obj", dbOut (.ok db))]
+  | .ok .other => Json.mkObj [("other", .null)]
+  | .error e => errJ e
 
 def op (name : String) (j : Json) : Except String (Option Json) := do
   match name with
+  | "genm_init" =>
+    pure (some (dbOut (GenM.many2sql_init X (← argOfJson j "pdbfiles") (← argOfJson j "tablenames"))))
+  | "model_many_named" =>
+    -- the HAND model of `many2sql([db, …], tablenames=[…])` (Model/TableWorld.lean `manyNamed`) with the concrete text round trip
+    let srcs ← (← jArr j "srcs").toList.mapM dbOfJson
+    let names ← (← jArr j "names").toList.mapM (fun x => do let s ← asStr x; pure s.toList)
+    pure (some (dbOut (Model.manyNamed Model.textRoundtrip srcs names)))
+  | "genm_call" =>
+    let db ← dbOfJson (← j.getObjVal? "db")
+    pure (some (dbOut (GenM.many2sql_call X db (← kwsOfJson j "kw"))))
+  | "genm_intersect" =>
+    let db ← dbOfJson (← j.getObjVal? "db")
+    let m ← match j.getObjVal? "match" with
+      | .ok (.arr a) => a.toList.mapM (fun x => do let s ← asStr x; pure s.toList)
+      | _ => pure GenM.intersect_match
+    pure (some (dbOut (GenM.intersect X db m)))
+  | "genm_get_all" =>
+    let db ← dbOfJson (← j.getObjVal? "db")
+    pure (some (match GenM.get_all X db (← strOf j "columns") (← kwsOfJson j "kw") with
+      | .ok l => .arr (l.map resultJ).toArray
+      | .error e => errJ e))
+  | "genm_interface_init" =>
+    let pdb ← elemOfJson (← j.getObjVal? "pdb")
+    let kw : GenM.InitKw X.Data ← match j.getObjVal? "tablename" with
+      | .ok t => (do pure (some (← elemOfJson t)))
+      | _ => pure none
+    pure (some (dbOut (GenM.interface_init X pdb kw)))
+  | "genm_convert_input" =>
+    pure (some (elemOut (GenM.convert_input X (← elemOfJson (← j.getObjVal? "pdb")))))
   | _ => pure none
 
 end Driver.ExtMany
